@@ -748,6 +748,10 @@ class PowerLawFlux1D(_models.PowerLaw1D):
             amp = u.Quantity(self.amplitude, self._flux_unit)
 
         fac = 1 - self.alpha
+        if fac == 0:
+            # alpha = 1: the integral of 1/x is a logarithm; the general
+            # formula below would evaluate 0/0.
+            return amp * x_0 * np.log(max(x) / min(x))
         denom = x_0 ** -self.alpha * fac
         return amp * (max(x) ** fac - min(x) ** fac) / denom
 
